@@ -94,9 +94,11 @@ func checkKeyUse(key any, op KeyOp) bool {
 	case KeyUseUnknown:
 		return true
 	case KeyUseSig:
-		return op == KeyOpVerify
+		return op == KeyOpSign || op == KeyOpVerify
 	case KeyUseEnc:
-		return op == KeyOpEncrypt || op == KeyOpWrapKey || op == KeyOpDeriveKey
+		return op == KeyOpEncrypt || op == KeyOpDecrypt ||
+			op == KeyOpWrapKey || op == KeyOpUnwrapKey ||
+			op == KeyOpDeriveKey
 	default:
 		return false
 	}
